@@ -46,6 +46,28 @@ CLAIMS = {
         "note": _TRUST + "http.client's own request/response state machine is trusted for bytes arriving after checkout.",
         "technique": "static analysis: path-sensitive typestate + decision-table extraction by abstract interpretation, who-may-call queries",
     },
+    "C16": {
+        "text": ("Deliberately narrow. Decides only the storage discipline behind the multimap: every access to the storage dict uses a "
+                 "lower-cased key; every list stored is built in that statement, copies build per-key fresh lists and no method returns a "
+                 "stored list (so copies and unions are independent of their sources); copy/|/reversed | return a newly built instance and "
+                 "|= returns self; bulk mutators insert through add() while item assignment replaces with [name, value]. "
+                 "Declined (most of the statement): equivalence of arbitrary operation sequences with a reference multimap - ordering, "
+                 "casing drift, combine semantics, equality - which needs model-based testing, a different technique."),
+        "note": _TRUST + "Only necessary structural conditions of C16 are decided; a behavioural change that keeps this discipline is out of reach.",
+        "technique": "static analysis: def-use / escape queries over the AST of HTTPHeaderDict",
+    },
+    "C17": {
+        "text": ("Decides the lock and disposal discipline of the LRU container and of get-or-create, on every path: each access to the "
+                 "mapping is inside the instance lock (re-entrant); the dispose callback is never invoked under the lock; every value taken "
+                 "out (replaced, evicted, deleted, cleared) is disposed exactly once when a callback is set and never otherwise; a new key "
+                 "always evaluates len > maxsize after insertion and evicts with popitem(last=False) in the same region; a lookup pops and "
+                 "re-inserts in one region and returns that value; lookup, creation and insertion of a pool share one region of the "
+                 "container lock and a hit returns the cached object; the manager installs no dispose callback, never calls close() on a "
+                 "pool, sizes the container with num_pools; pools close themselves via weakref.finalize. "
+                 "Declined: linearizability as such (follows from the single-lock discipline), garbage-collector timing."),
+        "note": _TRUST + "OrderedDict and RLock semantics are taken from their documentation (small frozen model of pop/popitem/clear/values).",
+        "technique": "static analysis: lockset + typestate (removed => disposed once) by abstract interpretation of the container methods",
+    },
     "C18": {
         "text": ("Decides the structural clauses of C18 for all keywords and all call paths: every keyword accepted by the pool and "
                  "connection constructors is a PoolKey field, pool-injected, or rejected by the unfiltered key_class(**context); the very "
@@ -56,9 +78,20 @@ CLAIMS = {
         "note": _TRUST + "Def-use is flow-insensitive inside one function; unrecognised shapes are reported as ANALYSIS-ERROR, not as pass.",
         "technique": "static analysis: signature/key-table agreement + intra-function def-use and dict-mutation queries over the AST",
     },
+    "C20": {
+        "text": ("Decides the structural soundness of the multipart encoder for all field contents: field name and filename reach a "
+                 "header only through _render_parts -> _render_part -> the header formatter (default format_multipart_header_param); its "
+                 "translation table maps CR, LF and the double quote to %0D, %0A, %22, re-introduces none of them, and the result is "
+                 "name=\"<escaped>\"; every part is written as delimiter line, rendered headers, data, CRLF on every path, followed by "
+                 "exactly one closing delimiter; str data goes through the UTF-8 writer and bytes are written raw; the header block ends "
+                 "with an empty line; one boundary definition reaches every delimiter and the returned content type; request_encode_body "
+                 "sends that body with that content type. Declined: parsing the output back (byte-level round trip)."),
+        "note": _TRUST + "Custom header_formatter callables supplied by the caller are outside the claim (deprecated extension point).",
+        "technique": "static analysis: sanitizer-on-every-flow def-use, folded escape table, event-order typestate over the encoder loop",
+    },
 }
 
 _PENDING = "check not built yet in this session (static rules designed in DESIGN.md section 5); will be claimed once its rules run clean"
 
 NOT_APPLICABLE = {pid: _PENDING for pid in
-                  ["C04", "C05", "C06", "C07", "C08", "C09", "C10", "C11", "C12", "C13", "C14", "C15", "C16", "C17", "C19", "C20"]}
+                  ["C04", "C05", "C06", "C07", "C08", "C09", "C10", "C11", "C12", "C13", "C14", "C15", "C19"]}
